@@ -133,7 +133,17 @@ Duplicated(exp, got) == {r \in got.rows : r.n > Cardinality({g \in exp.groups : 
 Unmet(exp, got)      == LET have == {Bare(r) : r \in got.rows}
                         IN {g \in exp.groups : \A N \in g.need : \E o \in N : RowOf(g, o) \notin have}
 
+\* an inet socket is listed once however many descriptors (of however many processes) refer to it;
+\* rows that several sockets with the same fields and holders admit are shared between them
+RECURSIVE SumN(_)
+SumN(R) == IF R = {} THEN 0 ELSE LET r == CHOOSE r \in R : TRUE IN r.n + SumN(R \ {r})
+Overcounted(exp, got) ==
+  {g \in exp.groups : /\ g.f.fam # "unix"
+                      /\ SumN({r \in got.rows : Bare(r) \in Adm(g)})
+                           > Cardinality({h \in exp.groups : Adm(h) \cap Adm(g) # {}})}
+
 Conforms(exp, got) ==
+  /\ Overcounted(exp, got) = {}   \* one row per inet socket
   /\ got.err = exp.err
   /\ Invented(exp, got) = {}       \* nothing but the table's sockets, right fields, a real holder
   /\ Duplicated(exp, got) = {}     \* every socket once
@@ -165,6 +175,7 @@ Why(exp, got) ==
   \cup {<<"unexpected-row", r.f.fam, r.f.type>> : r \in Invented(exp, got)}
   \cup {<<"duplicate-row", r.f.fam, r.f.type>> : r \in Duplicated(exp, got)}
   \cup {<<"missing-row", g.f.fam, g.f.type>> : g \in Unmet(exp, got)}
+  \cup {<<"row-per-holder", g.f.fam, g.f.type>> : g \in Overcounted(exp, got)}
 
 \* the clauses that no defect shape explains away (all of them when every one
 \* is explained by some shape but the answer as a whole by none)
